@@ -145,3 +145,37 @@ class solid_to_ufo:
         "keys": lambda result: sorted(result.keys()) == ["Alpha", "Format", "PaletteIndex"],
     }
     native_skip = ("index-of-opaque-colour",)
+
+
+# ---- Color.fromstring: the caller's alpha (the shape's opacity) always multiplies in ---------
+
+_TEXTS = {
+    # text: ((r, g, b), alpha carried by the text, palette index)
+    "#F00": ((255, 0, 0), 1, None),
+    "#F008": ((255, 0, 0), 0x88 / 255, None),
+    "#12AB3C": ((0x12, 0xAB, 0x3C), 1, None),
+    "#FF000080": ((255, 0, 0), 0x80 / 255, None),
+    " #00ff0040 ": ((0, 255, 0), 0x40 / 255, None),
+    "red": ((255, 0, 0), 1, None),
+    "black": ((0, 0, 0), 1, None),
+    "rgb(1, 2, 3)": ((1, 2, 3), 1, None),
+    "currentColor": ((-1, -1, -1), 1, None),
+    "var(--color3, #0000FF40)": ((0, 0, 255), 0x40 / 255, 3),
+    "var(--color0,red)": ((255, 0, 0), 1, 0),
+}
+_BAD_TEXTS = ("#FF00000", "#12345678F", "#12345", "#1", "foo(1,2)", "hsl(10,20%,30%)", "rgb(1,2)", "notacolour")
+
+
+@contract("nanoemoji.colors.Color.fromstring", props=["C01", "C03", "C15", "C17"])
+class color_fromstring_alpha:
+    scope = "finite: representative colour texts (hex of every legal and several illegal lengths, names, rgb(), currentColor, var(--colorN, c)); the alpha argument is unconstrained"
+    args = {"cls": ClassOf("nanoemoji.colors.Color"), "s": OneOf(*[Const(t) for t in list(_TEXTS) + list(_BAD_TEXTS)]), "alpha": Real}
+    # anything that is not a colour is an error (never a substituted paint)
+    raises = {"ValueError": lambda s: s in _BAD_TEXTS}
+    ensures = {
+        "colour-of-the-text": lambda s, result: s in _BAD_TEXTS or (result.red, result.green, result.blue) == _TEXTS[s][0],
+        # the alpha handed in (the shape's opacity) multiplies the text's own alpha
+        "alpha-multiplies": lambda s, alpha, result: s in _BAD_TEXTS or result.alpha == alpha * _TEXTS[s][1],
+        "palette-index-of-the-text": lambda s, result: s in _BAD_TEXTS or (isnone(result.palette_index) if _TEXTS[s][2] is None else result.palette_index == _TEXTS[s][2]),
+    }
+    native = False
